@@ -77,6 +77,11 @@ def run(ctx):
     ctx.token_audit()
     if ok:
         ctx.axiom_audit("RootSim.Props.C08", THEOREMS)
+    # detection half: a thread that has not voted has a finite max_t, so it votes at the first GVT above it once its LPs are done
+    okt, _ = ctx.lean_build(["RootSim.Props.C08Term"])
+    if okt:
+        ctx.axiom_audit("RootSim.Props.C08Term", ["RootSim.C08Term.detection_live", "RootSim.C08Term.maxT_max_iff_voted",
+                                                  "RootSim.C08Term.good_run", "RootSim.C08Term.runG_fst"])
         if ctx.tier == "thorough":
             ctx.leanchecker("RootSim.Props.C08")
     if not build_hc08(ctx):
